@@ -420,7 +420,8 @@ def normalise(crate_name, bodies, known):
     """bodies: list of body dicts of one crate (mutated in place). known: set of function paths of the inventory.
     Returns (absorbed_paths, report)."""
     by_path = {b["path"]: b for b in bodies}
-    new = {p: b for p, b in by_path.items() if b["kind"] in ("Fn", "AssocFn") and p not in known}
+    # (a hand-written `Iterator::next` of a new type stays a call: the loops that drive it are recognised by that call)
+    new = {p: b for p, b in by_path.items() if b["kind"] in ("Fn", "AssocFn") and p not in known and not p.endswith(" as std::iter::Iterator>::next")}
     # closures that are called directly (`let f = |..| ..; f(x)`) are local helper functions too
     direct = set()
     for b in bodies:
